@@ -538,6 +538,7 @@ int main() {
         if (w[0] == "init") {
             if (w.size() < 2) return "bad-op";
             destroy_all();
+            g_base_live = VerifHooks::live_pdus();     // a leak is reported by the `end` of its own case, not inherited
             g_slots.assign(std::stoul(w[1]), Slot());
             g_opts.assign(g_slots.size(), 0);
             g_ids.clear(); g_next_id = 0;
